@@ -227,10 +227,12 @@ def get_model(
 
         logger.debug('Found "%s" association.', assoc.name)
 
+        # The signature consists of the asset types the association was
+        # declared with, the assets themselves can be of any of their subtypes
         assoc_name = lang_classes_factory.get_association_by_signature(
             assoc.name,
-            left_asset.type,
-            right_asset.type
+            assoc.left_field.asset.name,
+            assoc.right_field.asset.name
         )
 
         if not assoc_name:
